@@ -1433,16 +1433,31 @@ def body_proofs(ns, status):
 PURE = ["rotrFixed", "S0", "S1", "s0", "s1", "Ch", "Maj"]
 
 
-def preprocess(repo, defines=(), directives_only=False):
+STRIP = re.compile(r"^[ \t]*#[ \t]*define[ \t]+_SHA256_UNROLL2?\b[^\n]*$", re.M)
+
+
+def preprocess(repo, defines=(), directives_only=False, as_is=False):
+    """the translation unit through the real preprocessor.  Unless `as_is`, the source is preprocessed from a scratch copy in
+    which a `#define _SHA256_UNROLL[2]` of the file itself is blanked, so that the three build configurations (none,
+    -D_SHA256_UNROLL, -D_SHA256_UNROLL2) can all be produced whichever of them the sources select themselves"""
     src = Path(repo) / "src" / "Crypto" / "Sha256.cpp"
     if not src.exists():
         raise Untranslatable(f"{src} does not exist")
     cmd = [os.environ.get("CXX", "g++"), "-E", "-dD"] + (["-fdirectives-only"] if directives_only else []) + \
-          [f"-D{d}" for d in defines] + [f"-I{repo}/include", str(src)]
-    p = subprocess.run(cmd, stdout=subprocess.PIPE, stderr=subprocess.PIPE, text=True)
+          [f"-D{d}" for d in defines] + [f"-I{repo}/include", "-x", "c++", "-"]
+    text = src.read_text(errors="replace")
+    if not as_is:
+        text = STRIP.sub("", text)
+    p = subprocess.run(cmd, input=text, stdout=subprocess.PIPE, stderr=subprocess.PIPE, text=True)
     if p.returncode != 0:
         raise Untranslatable("preprocessor failed: " + p.stderr[-300:])
     return p.stdout
+
+
+def as_is_config(repo):
+    """which configuration the unmodified sources select: rolled | unroll | u2 (the names of the harness op `variant`)"""
+    defs = macro_table(preprocess(repo, as_is=True))
+    return "u2" if UNROLL2 in defs else ("unroll" if UNROLL1 in defs else "rolled")
 
 
 def macro_table(pp):
@@ -1629,8 +1644,14 @@ def run(repo=None):
     write_if_changed(OUT_BODY, body)
     write_if_changed(OUT_PROOFS, proofs)
     global LAST_STATUS
-    LAST_STATUS = status
+    LAST_STATUS = dict(status)
+    try:
+        LAST_STATUS["config"] = as_is_config(repo)
+    except Untranslatable as ex:
+        return False, f"gen_sha: {ex}"
     fb = "; ".join(f"{n} NOT translated ({r})" for n, r in status.items() if r is not None)
+    if LAST_STATUS["config"] != "rolled":
+        fb = (fb + "; " if fb else "") + f"the sources select the configuration '{LAST_STATUS['config']}' themselves"
     return True, hashlib.sha1((text + text2 + text1 + body + proofs).encode()).hexdigest()[:12] + ("  [" + fb + "]" if fb else "")
 
 
@@ -1639,8 +1660,9 @@ def gen(ctx):
     if ok:
         ctx.notes.append(f"translator: Nstd/Generated/Sha256Tables.lean, Sha256U2.lean, Sha256Body.lean, Sha256BodyProofs.lean regenerated from the current sources (sha1 {msg})")
         ctx.cov["translated_bodies"] = {"Transform": "translated (it is the model)", "Transform -D_SHA256_UNROLL2": "translated",
+                                        "Transform -D_SHA256_UNROLL": "translated", "configuration selected by the sources": LAST_STATUS.get("config"),
                                         **{n: ("translated, proved equal to the model" if r is None else f"NOT translated this run, model function used instead: {r}")
-                                           for n, r in LAST_STATUS.items()}}
+                                           for n, r in LAST_STATUS.items() if n != "config"}}
     return ok, msg
 
 
